@@ -240,6 +240,27 @@ def events_for(pp, rnd, A, tag):
     o, r = call(lambda: (bool(xo == yo), bool(yo == xo), bool(xo == xo)))
     evs.append({"op": "eq", "tid": f"{tag}.eqmult.{len(evs)}", "k": "c20", "A": A2, "out": o, "B": B2, "what": "multiplicity",
                 "ab": r[0] if o == "ret" else False, "ba": r[1] if o == "ret" else False, "aa": r[2] if o == "ret" else False})
+    # one position holding a whole number and the float of the same value, with different multipliers, listed in the two
+    # possible orders: the order of modifications at one position does not matter (intervals included)
+    slot = rnd.choice(["nterm", "cterm", "labile", "unknown", "internal", "interval", "interval"])
+    n_ = rnd.choice([1, 7, 42])
+    x_, y_ = {"v": f"i:{n_}", "m": 2}, {"v": f"f:{n_}.0", "m": 1}
+    A4, B4 = copy.deepcopy(A), copy.deepcopy(A)
+    if slot == "internal":
+        for C_, ms in ((A4, [x_, y_]), (B4, [y_, x_])):
+            C_["internal"] = sorted([e for e in C_["internal"] if e["i"] != 0] + [{"i": 0, "mods": ms}], key=lambda e: e["i"])
+    elif slot == "interval":
+        for C_, ms in ((A4, [x_, y_]), (B4, [y_, x_])):
+            if C_["intervals"]:
+                C_["intervals"][0]["mods"] = ms
+            else:
+                C_["intervals"] = [{"s": 0, "e": 1, "amb": False, "mods": ms}]
+    else:
+        A4[slot], B4[slot] = [x_, y_], [y_, x_]
+    xo, yo = anngen.build(pp, A4), anngen.build(pp, B4)
+    o, r = call(lambda: (bool(xo == yo), bool(yo == xo), bool(xo == xo)))
+    evs.append({"op": "eq", "tid": f"{tag}.eqnum.{len(evs)}", "k": "c20", "A": A4, "out": o, "B": B4, "what": "order_of_a_whole_number_and_its_float",
+                "ab": r[0] if o == "ret" else False, "ba": r[1] if o == "ret" else False, "aa": r[2] if o == "ret" else False})
     return evs
 
 
